@@ -54,6 +54,7 @@ fn gens(tier: Tier) -> Vec<Gen> {
         Gen::new("server_histories", tier.pick(3, 5_000, 400_000)),
         Gen::exhaustive("server_single_shutdown_grid", 5 * 4 * 2), // n x served-before x order
         Gen::new("client_goaway_sequences", tier.pick(2, 3_000, 150_000)),
+        Gen::exhaustive("regressions", 1),
     ]
 }
 
@@ -292,6 +293,19 @@ fn check_server_history(h: &ServerHistory, seed: u64, rep: &mut Report) {
             };
             match got {
                 Got::Signal => {
+                    // the pending accept() was just dropped. If it was in the middle of writing
+                    // (only its closing GOAWAY is written from accept()) note it: see known findings
+                    {
+                        let nn = lock(&net2);
+                        let blocked = nn.streams.iter().any(|(id, s)| {
+                            let (init, bidi) = sim::id_kind(*id);
+                            !bidi && init == SERVER && s.pipe(SERVER).sent.first() == Some(&0x00) && s.pipe(SERVER).sender_blocked
+                        });
+                        drop(nn);
+                        if blocked {
+                            p.record("s:conn", "accept_cancelled_while_control_write_blocked", Out::Ok);
+                        }
+                    }
                     if let Some(n) = shutdowns.get(next_shutdown).copied() {
                         next_shutdown += 1;
                         let r = p.call("s:conn", "shutdown", conn.shutdown(n), |r| match r {
@@ -341,6 +355,18 @@ fn check_server_history(h: &ServerHistory, seed: u64, rep: &mut Report) {
     }
     let goaways = wire::control_goaways(&n, SERVER);
     rep.add("goaway_frames_seen", goaways.len() as u64);
+    if rep.verbose {
+        eprintln!("--- {}", case);
+        eprintln!("  goaways (id, time written): {:?}", goaways);
+        for e in &evs {
+            eprintln!("  t={} {} {} -> {:?}", e.t, e.actor, e.op, e.out);
+        }
+        for id in &h.ids {
+            if let Some(s) = n.streams.get(id) {
+                eprintln!("  stream {} pulled at {:?} reset {:?} stop {:?}", id, s.accepted_at, s.pipe(SERVER).reset_sent, s.pipe(CLIENT).stop_sent);
+            }
+        }
+    }
     // (a) ids are request ids and never increase
     for (i, (g, _)) in goaways.iter().enumerate() {
         if g % 4 != 0 {
@@ -396,7 +422,12 @@ fn check_server_history(h: &ServerHistory, seed: u64, rep: &mut Report) {
                         return;
                     }
                 } else if !is_shown {
-                    viol(rep, "request-below-goaway-id-not-served", format!("stream {} was pulled after GOAWAY({}) and is below it, but was not shown (reset {:?}, stop_sending {:?})", id, g, rst, stop), &case);
+                    // narrow signature for the one history that is a listed finding (accept()
+                    // dropped by the application while its closing GOAWAY was blocked by the
+                    // transport: the reject line moved, the frame never reached the wire)
+                    let cancelled = evs.iter().any(|e| e.op == "accept_cancelled_while_control_write_blocked");
+                    let rule = if cancelled { "request-below-goaway-id-not-served[accept()-cancelled-while-its-closing-GOAWAY-was-blocked]" } else { "request-below-goaway-id-not-served" };
+                    viol(rep, rule, format!("stream {} was pulled after GOAWAY({}) and is below it, but was not shown (reset {:?}, stop_sending {:?})", id, g, rst, stop), &case);
                     return;
                 } else if rst == Some(rf::H3_REQUEST_REJECTED) || stop == Some(rf::H3_REQUEST_REJECTED) {
                     viol(rep, "served-stream-also-rejected", format!("stream {} was shown and also reset/stopped with H3_REQUEST_REJECTED", id), &case);
@@ -558,6 +589,15 @@ fn run_case(gen: &str, index: u64, seed: u64, _tier: Tier, rep: &mut Report) {
         "server_histories" => {
             let h = gen_server_history(&mut rng);
             check_server_history(&h, rng.next(), rep);
+        }
+        "regressions" => {
+            // the history of the listed finding (accept() dropped while its closing GOAWAY was
+            // blocked): case seeds found by the sampled generator, replayed on every run
+            for cs in [9007122992846103872u64] {
+                let mut r = Rng::new(cs);
+                let h = gen_server_history(&mut r);
+                check_server_history(&h, r.next(), rep);
+            }
         }
         "server_single_shutdown_grid" => {
             // shutdown(n) after `served` requests were accepted, then two more arrive
